@@ -393,3 +393,13 @@ mutant("c06-missing-jaxpr-check-weakened", "C06", LAXD + "while_loop.py", "     
 mutant("c13-original-read-after-write", "C13", "jax2onnx/plugins/_patching.py", "            orig = getattr(tgt, s.attr, _MISSING)\n            owned = orig is not _MISSING and owns_attr(tgt, s.attr)\n            if isinstance(s, AssignSpec):\n                setattr(tgt, s.attr, s.value)", "            if isinstance(s, AssignSpec):\n                setattr(tgt, s.attr, s.value)\n            orig = getattr(tgt, s.attr, _MISSING)\n            owned = orig is not _MISSING and owns_attr(tgt, s.attr)\n            if isinstance(s, AssignSpec):\n                pass", expect="R-C13e")
 mutant("c13-restore-writes-wrong-value", "C13", "jax2onnx/plugins/_patching.py", "                setattr(tgt, attr, orig)", "                setattr(tgt, attr, getattr(tgt, attr))", expect="restore-value")
 mutant("c13-refcounted-restore-wrong-value", "C13", PS, '                    setattr(tgt, attr, st["orig"])', '                    setattr(tgt, attr, st.get("new"))', expect="restore-value")
+
+# ----------------------------------------------------------------------------- C10
+CJ = "jax2onnx/plugins/jax/core/custom_jvp_call.py"
+R2 = "jax2onnx/plugins/jax/lax/remat2.py"
+mutant("c10-custom-jvp-lowers-derivative-rule", "C10", CJ, 'closed = eqn.params.get("call_jaxpr")', 'closed = eqn.params.get("jvp_jaxpr_fun")', expect="primal-key")
+mutant("c10-remat-output-binding-reversed", "C10", R2, "        for outer_var, inner_var in zip(eqn.outvars, inner_jaxpr.outvars):\n            ctx.bind_value_for_var(outer_var, ctx.get_value_for_var(inner_var))", "        for outer_var, inner_var in zip(eqn.outvars, inner_jaxpr.outvars):\n            ctx.bind_value_for_var(inner_var, ctx.get_value_for_var(outer_var))", expect="wiring")
+mutant("c10-custom-vjp-outputs-bound-before-body", "C10", "jax2onnx/plugins/jax/core/custom_vjp_call.py", "        lower_jaxpr_eqns(ctx, inner_jaxpr, source=\"custom_vjp\")\n\n        for outer_var, inner_var in zip(eqn.outvars, inner_jaxpr.outvars):\n            ctx.bind_value_for_var(outer_var, ctx.get_value_for_var(inner_var))", "        for outer_var, inner_var in zip(eqn.outvars, inner_jaxpr.outvars):\n            ctx.bind_value_for_var(outer_var, ctx.get_value_for_var(inner_var))\n\n        lower_jaxpr_eqns(ctx, inner_jaxpr, source=\"custom_vjp\")", expect="wiring")
+mutant("c10-amin-forwards-max-rule", "C10", "jax2onnx/plugins/jax/numpy/amin.py", "register_reduction_batch_rule(JnpAminPlugin._PRIM, jax.lax.reduce_min_p)", "register_reduction_batch_rule(JnpAminPlugin._PRIM, jax.lax.reduce_max_p)", expect="R-C10c")
+multi("c10-batch-rule-rebind-whitelist", "C10", "mutant", [(RUF, "        (operand,), (bdim,) = batched_args, batch_dims\n", "        (operand,), (bdim,) = batched_args, batch_dims\n        passthrough = {name: params[name] for name in (\"dtype\", \"keepdims\") if name in params}\n"), (RUF, "                axes_is_tuple=axes_is_tuple,\n                **params,", "                axes_is_tuple=axes_is_tuple,\n                **passthrough,")], expect="R-C10d")
+benign("c10-benign-remat-loop-names", "C10", R2, "        for outer_var, inner_var in zip(eqn.outvars, inner_jaxpr.outvars):\n            ctx.bind_value_for_var(outer_var, ctx.get_value_for_var(inner_var))", "        for dst, produced in zip(eqn.outvars, inner_jaxpr.outvars):\n            ctx.bind_value_for_var(dst, ctx.get_value_for_var(produced))")
